@@ -13,6 +13,9 @@ CHECKS = {
 }
 CHECKS.update({
  # NEW-ENTRIES-HERE
+ "C20": (True, "model_checking", "explicit-state exploration of registration histories on the real global registries with a 'last registration wins' model; instrumented codecs; exhaustive positions",
+         "Registration histories over {Register(f1), Register(f2), RegisterSchema(s1), RegisterSchema(s2)} are explored from the unregistered state (fresh generic named types) and from carried-over states up to depth 3 (4 thorough) for custom types of three kinds; after every operation the type is used at 11 positions and the schema shown, the builder consulted, the codec actually run for every occurrence (invocation counters and a wire marker), validity under the reference decoder and codec/file round trips are compared with the model. Controls: never-registered look-alikes and the library's own registrations.",
+         "Registrations cannot be undone (state carried within a worker); custom builders accept string/long schemas only.", "DESIGN.md §4 C20"),
  "C06": (True, "fault_enumeration", "exhaustive single-field mutation, truncation and byte-replacement enumeration plus all short byte strings, on five reading entry points, in isolated workers with an allocation meter and a watchdog",
          "For every reading entry point (Codec.Read and Codec.Skip of ~50 codecs, ReadFile, SchemaFromString followed by Schema.Codec and a decode, timestamp text) three input families are enumerated completely: every byte string up to a length bound, every single-field mutation (20 boundary values) / truncation / byte replacement of every valid encoding, file, schema document and timestamp of a base family, and named structural cases. Each call must return without panic, without killing or stalling the worker, and with heap allocation (runtime/metrics) within 1 MiB + 1024 x input length. ~9.5 million distinct inputs in the quick tier.",
          "Loose linear allocation bound; watchdog-based non-termination; zero-size-item floods outside the claim except for the recorded known finding.", "DESIGN.md §4 C06"),
